@@ -4,13 +4,13 @@ package main
 // named obligations that snapshot a prefix of that list, and a solver portfolio.
 
 import (
-	"regexp"
 	"bytes"
 	"context"
 	"fmt"
 	"os"
 	"os/exec"
 	"path/filepath"
+	"regexp"
 	"sort"
 	"strings"
 	"sync"
@@ -494,17 +494,20 @@ func (o *Obligation) Solve(opts SolveOpts) {
 		return
 	}
 	// whole goal on a quarter of the budget, then the pieces, then the whole goal on the full budget
-	short := opts
-	short.TimeoutMs = opts.TimeoutMs / 4
-	if short.TimeoutMs < 1000 {
-		short.TimeoutMs = 1000
-	}
-	o.solveGoal(short)
-	if o.Result == "unsat" || o.Result == "sat" {
-		return
+	total := 0.0
+	if !o.Retried {
+		short := opts
+		short.TimeoutMs = opts.TimeoutMs / 4
+		if short.TimeoutMs < 1000 {
+			short.TimeoutMs = 1000
+		}
+		o.solveGoal(short)
+		if o.Result == "unsat" || o.Result == "sat" {
+			return
+		}
+		total = o.TimeS
 	}
 	whole := o.Goal
-	total := o.TimeS
 	failed := ""
 	pieceRes := "unsat"
 	for _, a := range o.Alts {
@@ -626,8 +629,8 @@ func SolveAll(obls []*Obligation, opts SolveOpts, par int) {
 			retry = append(retry, o)
 		}
 	}
-	// two more chances: 3x the budget at parallelism 4, then 8x at parallelism 2
-	for _, round := range []struct{ mult, par int }{{3, 4}, {8, 2}} {
+	// one more chance: 4x the budget at parallelism 4 (a proof that needs 8 s on an idle machine still passes at 5x load)
+	for _, round := range []struct{ mult, par int }{{4, 4}} {
 		if len(retry) == 0 || opts.NoRetry {
 			break
 		}
@@ -643,9 +646,9 @@ func SolveAll(obls []*Obligation, opts SolveOpts, par int) {
 				defer wg2.Done()
 				defer func() { <-sem2 }()
 				first := o.TimeS
+				o.Retried = true
 				o.Solve(o2)
 				o.TimeS += first
-				o.Retried = true
 			}()
 		}
 		wg2.Wait()
